@@ -10,6 +10,7 @@ import (
 	"github.com/tychoish/fun/adt"
 	"github.com/tychoish/fun/ers"
 	"github.com/tychoish/fun/risky"
+	"github.com/tychoish/fun/verifhook"
 )
 
 // Deque proves a basic double ended queue backed by a doubly linked
@@ -235,6 +236,7 @@ func (dq *Deque[T]) waitPushAfter(ctx context.Context, it T, afterGetter func() 
 		case <-ctx.Done():
 			return ctx.Err()
 		default:
+			verifhook.At("pubsub.wait.before-cond-wait")
 			cond.Wait()
 		}
 
@@ -468,6 +470,7 @@ func (it *element[T]) wait(ctx context.Context, direction dqDirection) error {
 		case <-ctx.Done():
 			return ctx.Err()
 		default:
+			verifhook.At("pubsub.wait.before-cond-wait")
 			cond.Wait()
 		}
 	}
